@@ -112,6 +112,10 @@ Proof.
   replace (j - length l1 - (i - length l1)) with (j - i) by lia. reflexivity.
 Qed.
 
+Lemma slice_app_r2 {A} (l1 l2 : list A) n i j : length l1 = n ->
+  slice (l1 ++ l2) (n + i) (n + j) = slice l2 i j.
+Proof. intros H. rewrite slice_app_r by lia. f_equal; lia. Qed.
+
 Lemma slice_map {A B} (f : A -> B) l i j : slice (map f l) i j = map f (slice l i j).
 Proof. unfold slice. rewrite skipn_map, firstn_map. reflexivity. Qed.
 
